@@ -2767,6 +2767,36 @@ async def c19_framing_bounded(w):
             "cases": cases, "failures": failures, "reproduced": bool(failures)}
 
 
+async def c19_two_senders(w):
+    """Two coroutines send multi-frame messages on ONE ZmqSocket whose transport really suspends in drain() (a slow reader):
+    the peer must read two intact messages (in either order)."""
+    from custom_components.pyscript.jupyter_kernel import ZmqSocket
+    buf = bytearray()
+
+    class Writer:
+        def write(self, b):
+            buf.extend(b)
+
+        async def drain(self):
+            await asyncio.sleep(0)
+    sock = ZmqSocket(None, Writer(), "PUB")
+    m1 = [b"A" * 3, b"a" * 300, b"", b"1"]
+    m2 = [b"B" * 5, b"b" * 2, b"2" * 260]
+    await asyncio.gather(sock.send_multipart(m1), sock.send_multipart(m2))
+    reader = asyncio.StreamReader()
+    reader.feed_data(bytes(buf))
+    reader.feed_eof()
+    peer = ZmqSocket(reader, None, "SUB")
+    got, err = [], None
+    try:
+        for _ in range(2):
+            got.append(await asyncio.wait_for(peer.recv_multipart(), 5))
+    except Exception as e:  # noqa
+        err = repr(e)
+    ok = err is None and sorted(got) == sorted([m1, m2])
+    return {"reproduced": not ok, "observed": {"messages_read": [[len(f) for f in m] for m in got], "error": err}, "expected": {"messages": [[len(f) for f in m1], [len(f) for f in m2]]}}
+
+
 async def c19_interleaved_parent(w):
     """Two shell connections: request A (a cell that awaits) is suspended while request B is handled; every message caused by A -
     in particular its closing idle status - must carry A's header as parent."""
